@@ -454,16 +454,31 @@ fn build(c: &IngCase) -> IngressEnvelope {
 
 fn imp_ing_enc(t: &mut Toks) -> Result<String, String> {
     let c = parse_ing(t)?;
+    // constructor (sort + dedup of the parent set), writer, reader — the model does all three
     let e = build(&c);
-    if e.causal_parents() != c.parents.as_slice() {
-        // the constructor canonicalises the parent set; the retained form is only defined on canonical lists
-        return Ok("unsorted".into());
-    }
     let b = e.to_retained_bytes_v2();
     Ok(match IngressEnvelope::from_retained_bytes(&b) {
-        Ok(d) => format!("ok {} rt {}", hex(&b), show_env(&d)),
-        Err(_) => format!("ok {} rt err", hex(&b)),
+        Ok(d) => format!("ok {} canon {} rt {}", hex(&b), show_env(&e), show_env(&d)),
+        Err(_) => format!("ok {} canon {} rt err", hex(&b), show_env(&e)),
     })
+}
+
+const PARENT_REC: usize = 1 + 176;
+
+fn parent_rec(p: &IngressCausalParent) -> Vec<u8> {
+    let mut v = vec![match p {
+        IngressCausalParent::TickReceipt { .. } => 1u8,
+        IngressCausalParent::ContractInverseTarget { .. } => 2,
+        _ => 0,
+    }];
+    v.extend_from_slice(&p.receipt_ref().to_canonical_bytes());
+    v
+}
+
+/// some adjacent pair of the (canonical) parent list orders differently by value and as raw record
+/// bytes — the corner where "ascending as bytes" and "ascending in the derived Ord" disagree
+fn le_order_mismatch(ps: &[IngressCausalParent]) -> bool {
+    ps.windows(2).any(|w| (w[0] < w[1]) != (parent_rec(&w[0]) < parent_rec(&w[1])))
 }
 
 fn oracle_ing_enc(t: &mut Toks, _tier: Tier) -> Result<OracleOut, String> {
@@ -480,19 +495,42 @@ fn oracle_ing_enc(t: &mut Toks, _tier: Tier) -> Result<OracleOut, String> {
     if e.causal_parents() != c.parents.as_slice() {
         o.tags.push("ing:constructor-canonicalised-parents".into());
     }
+    let mismatch = le_order_mismatch(e.causal_parents());
+    let sfx = if mismatch { ".le-tick-order" } else { "" };
+    if mismatch {
+        o.tags.push("ing:byte-order!=value-order".into());
+    }
+    // the constructor's form: strictly ascending in the derived Ord, same set as given
+    if !e.causal_parents().windows(2).all(|w| w[0] < w[1]) {
+        o.fails.push(("C12.ingress.constructor.not-strictly-ascending".into(), show_env(&e)));
+    }
+    if c.parents.iter().any(|p| !e.causal_parents().contains(p)) || e.causal_parents().iter().any(|p| !c.parents.contains(p)) {
+        o.fails.push(("C12.ingress.constructor.parent-set-changed".into(), show_env(&e)));
+    }
     let b = e.to_retained_bytes_v2();
     if build(&c).to_retained_bytes_v2() != b {
         o.fails.push(("C12.ingress.nondeterministic".into(), "two encodings differ".into()));
     }
-    // the encoding is a function of the canonical parent SET: reversing the given order changes nothing
-    let mut rev = IngCase { target: c.target.clone(), parents: c.parents.clone(), kind: c.kind, bytes: c.bytes.clone() };
-    rev.parents.reverse();
-    if build(&rev).to_retained_bytes_v2() != b {
-        o.fails.push(("C12.ingress.order-dependent".into(), "parent order changed the retained bytes".into()));
+    // the encoding is a function of the parent SET: reversing / rotating / repeating the given list changes nothing
+    let mut alt = IngCase { target: c.target.clone(), parents: c.parents.clone(), kind: c.kind, bytes: c.bytes.clone() };
+    alt.parents.reverse();
+    let rev_b = build(&alt).to_retained_bytes_v2();
+    if !alt.parents.is_empty() {
+        alt.parents.rotate_left(1);
+        let first = alt.parents[0];
+        alt.parents.push(first);
+    }
+    if rev_b != b || build(&alt).to_retained_bytes_v2() != b || build(&alt).ingress_id() != e.ingress_id() {
+        o.fails.push((format!("C12.ingress.order-dependent{sfx}"), "order/multiplicity of the given parents changed the retained bytes or the id".into()));
     }
     match IngressEnvelope::from_retained_bytes(&b) {
         Ok(d) if d == e && d.ingress_id() == e.ingress_id() => {}
-        other => o.fails.push(("C12.ingress.roundtrip".into(), format!("from_retained(to_retained(e)) != e: {:?}", other.map(|d| show_env(&d)).map_err(|_| "err")))),
+        Ok(d) if d == e => o.fails.push(("C12.ingress.roundtrip.id-changed".into(), show_env(&d))),
+        Ok(d) => o.fails.push((format!("C12.ingress.roundtrip.value-changed{sfx}"), format!("read back {}", show_env(&d)))),
+        Err(err) => o.fails.push((
+            format!("C12.ingress.roundtrip.own-bytes-refused{sfx}"),
+            format!("from_retained(to_retained(e)) = {err:?} for e = {}", show_env(&e)),
+        )),
     }
     Ok(o)
 }
@@ -515,17 +553,108 @@ fn gen_ref(rng: &mut Rng) -> String {
     )
 }
 
-fn gen_ing_term(rng: &mut Rng, sorted: bool) -> String {
-    let mut s = match rng.below(3) {
+/// tick values a < b whose little-endian bytes order the other way (low byte of a > low byte of b)
+fn le_mismatch_pair(rng: &mut Rng) -> (u64, u64) {
+    match rng.below(8) {
+        0 => (255, 256),
+        1 => (1, 1 << 32),
+        2 => (0x01ff, 0x0200),
+        3 => (2, 1 << 63),
+        4 => (0x00ff_ffff_ffff_ffff, 0x0100_0000_0000_0000),
+        5 => (0xffff, 0x1_0000),
+        _ => {
+            // random: b = a + something that carries out of the low byte
+            let a = (rng.next() >> rng.below(56)) | 0x80;
+            let b = (a | 0xff).wrapping_add(1 + (rng.below(0x40)));
+            if a < b { (a, b) } else { (255, 256) }
+        }
+    }
+}
+
+/// 2..4 parents of ONE role on ONE worldline that differ in a tick field only (optionally also in a
+/// later hash), built from LE-mismatching tick values; `order`: 0 = by value, 1 = by record bytes,
+/// 2 = reversed by value, 3 = with a duplicate
+fn gen_le_refs(rng: &mut Rng, order: u64) -> Vec<String> {
+    let role = rng.range(1, 2);
+    let wl = hex(&small_id(rng.below(2)));
+    let (a, b) = le_mismatch_pair(rng);
+    let mut ticks = vec![a, b];
+    if rng.chance(1, 2) {
+        let (c, d) = le_mismatch_pair(rng);
+        ticks.push(c);
+        if rng.chance(1, 2) {
+            ticks.push(d);
+        }
+    }
+    ticks.sort_unstable();
+    ticks.dedup();
+    let on_global = rng.chance(1, 3); // vary commit_global_tick under an equal worldline tick
+    let fixed = *rng.pick(&[0u64, 7, 256]);
+    let late = rng.chance(1, 3); // a later hash that orders against the tick
+    let n = ticks.len();
+    let mut recs: Vec<(Vec<u8>, String)> = ticks
+        .iter()
+        .enumerate()
+        .map(|(i, t)| {
+            let (tk, gt) = if on_global { (fixed, *t) } else { (*t, fixed) };
+            let h = if late { small_id((n - i) as u64) } else { small_id(0) };
+            let s = format!("{role} {wl} {tk} {gt} {} {} {} {}", hex(&h), hex(&small_id(0)), hex(&small_id(0)), hex(&small_id(1)));
+            let mut bytes = vec![role as u8];
+            bytes.extend_from_slice(&tk.to_le_bytes());
+            bytes.extend_from_slice(&gt.to_le_bytes());
+            (bytes, s)
+        })
+        .collect();
+    match order {
+        0 => {}
+        1 => recs.sort_by(|x, y| x.0.cmp(&y.0)),
+        2 => recs.reverse(),
+        _ => {
+            let d = recs[rng.below(n as u64) as usize].clone();
+            recs.insert(rng.below(n as u64 + 1) as usize, d);
+        }
+    }
+    let mut out: Vec<String> = recs.into_iter().map(|r| r.1).collect();
+    if rng.chance(1, 4) {
+        let twin = flip_role(&out[rng.below(out.len() as u64) as usize]);
+        out.insert(rng.below(out.len() as u64 + 1) as usize, twin);
+    }
+    if rng.chance(1, 4) {
+        // one parent of the other role / another worldline beside them
+        out.insert(rng.below(out.len() as u64 + 1) as usize, gen_ref(rng));
+    }
+    out
+}
+
+fn gen_target(rng: &mut Rng) -> String {
+    match rng.below(3) {
         0 => format!("T1 {}", hex(&small_id(rng.below(3)))),
         1 => {
             let inbox = *rng.pick(&["", "a", "inbox", "é€", "0123456789abcdef0123456789abcdef"]);
             format!("T2 {} {}", hex(&small_id(rng.below(3))), hex(inbox.as_bytes()))
         }
         _ => format!("T3 {} {}", hex(&small_id(rng.below(3))), hex(&small_id(rng.below(3)))),
-    };
+    }
+}
+
+fn term_with(rng: &mut Rng, refs: &[String]) -> String {
+    let len = rng.below(10) as usize;
+    format!("{} P {} {}{}K {} {}", gen_target(rng), refs.len(), refs.join(" "), if refs.is_empty() { "" } else { " " }, hex(&small_id(rng.below(3))), hex(&rng.bytes(len)))
+}
+
+/// the same receipt coordinate cited under the other role (the two are different parents)
+fn flip_role(r: &str) -> String {
+    let (role, rest) = r.split_once(' ').unwrap_or(("1", r));
+    format!("{} {rest}", if role == "1" { 2 } else { 1 })
+}
+
+fn gen_ing_term(rng: &mut Rng, sorted: bool) -> String {
     let n = if rng.chance(1, 2) { 0 } else { rng.range(1, 4) };
     let mut refs: Vec<String> = (0..n).map(|_| gen_ref(rng)).collect();
+    if n > 0 && rng.chance(1, 3) {
+        let twin = flip_role(&refs[rng.below(n) as usize]);
+        refs.insert(rng.below(n + 1) as usize, twin);
+    }
     if sorted {
         // canonicalise with the REAL order: parse, let the constructor sort+dedup, print back
         let probe = format!("T1 {} P {} {} K {} -", hex(&small_id(0)), refs.len(), refs.join(" "), hex(&small_id(0)));
@@ -535,36 +664,31 @@ fn gen_ing_term(rng: &mut Rng, sorted: bool) -> String {
             let shown = show_env(&e);
             // shown = "T1 <wl> P n refs… K …"
             let toks: Vec<&str> = shown.split(' ').collect();
-            let k = toks.iter().position(|x| *x == "K").unwrap_or(toks.len());
             let cnt: usize = toks[3].parse().unwrap_or(0);
             refs = (0..cnt).map(|i| toks[4 + i * 8..4 + i * 8 + 8].join(" ")).collect();
-            let _ = k;
         }
     }
-    s.push_str(&format!(" P {}", refs.len()));
-    for r in &refs {
-        s.push(' ');
-        s.push_str(r);
-    }
-    let len = rng.below(10) as usize;
-    s.push_str(&format!(" K {} {}", hex(&small_id(rng.below(3))), hex(&rng.bytes(len))));
-    s
+    term_with(rng, &refs)
 }
 
 fn gen_ing_enc(rng: &mut Rng, tier: Tier) -> Vec<String> {
     let n = if tier == Tier::Thorough { 3000 } else { 300 };
-    (0..n).map(|i| gen_ing_term(rng, i % 3 != 0)).collect()
+    let mut out: Vec<String> = (0..n).map(|i| gen_ing_term(rng, i % 3 != 0)).collect();
+    // the LE corner, in every given order
+    let m = if tier == Tier::Thorough { 2000 } else { 240 };
+    for i in 0..m {
+        let refs = gen_le_refs(rng, i % 4);
+        out.push(term_with(rng, &refs));
+    }
+    out
 }
 
 fn imp_ing_dec(t: &mut Toks) -> Result<String, String> {
     let b = t.bytes()?;
     let _label = t.next()?;
-    if b.starts_with(b"EINGR001") {
-        return Ok("v1-legacy".into());
-    }
     Ok(match IngressEnvelope::from_retained_bytes(&b) {
         Err(_) => "err".into(),
-        Ok(e) => format!("ok {}", show_env(&e)),
+        Ok(e) => format!("ok {} re {}", show_env(&e), hex(&e.to_retained_bytes_v2())),
     })
 }
 
@@ -573,25 +697,112 @@ fn oracle_ing_dec(t: &mut Toks, _tier: Tier) -> Result<OracleOut, String> {
     let label = t.next()?.to_string();
     let mut o = OracleOut::default();
     o.tags.push(format!("ing-src:{label}"));
+    let v1 = b.starts_with(b"EINGR001");
     match IngressEnvelope::from_retained_bytes(&b) {
-        Err(e) => o.tags.push(format!("ing-rej:{}", format!("{e:?}").split(['(', ' ', '{']).next().unwrap_or("?"))),
+        Err(e) => {
+            let class = format!("{e:?}");
+            let class = class.split(['(', ' ', '{']).next().unwrap_or("?").to_string();
+            o.tags.push(format!("ing-rej:{class}"));
+            if label.starts_with("valid") {
+                // the generator wrote these bytes with the real writer from a constructor-built envelope
+                o.fails.push((format!("C12.ingress.roundtrip.own-bytes-refused.{label}"), format!("reader refused writer output {} with {class}", hex(&b))));
+            }
+        }
         Ok(e) => {
             o.nontrivial = true;
             o.tags.push("ing:accepted".into());
+            let mismatch = le_order_mismatch(e.causal_parents());
+            if mismatch {
+                o.tags.push("ing:byte-order!=value-order".into());
+            }
             if label.starts_with("mut!") {
                 o.fails.push((format!("C12.ingress.accepted.{}", &label[4..]), format!("reader accepted {}", hex(&b))));
             }
-            if !b.starts_with(b"EINGR001") && e.to_retained_bytes_v2() != b {
-                o.fails.push(("C12.ingress.accepted-noncanonical".into(), format!("accepted {} re-encodes differently", hex(&b))));
+            let mut re = e.to_retained_bytes_v2();
+            if v1 {
+                // legacy form: the v2 bytes of a PARENTLESS envelope under the old magic
+                o.tags.push("ing:v1-accepted".into());
+                if !e.causal_parents().is_empty() {
+                    o.fails.push(("C12.ingress.v1.accepted-with-parents".into(), hex(&b)));
+                }
+                re[..8].copy_from_slice(b"EINGR001");
+            }
+            if re != b {
+                let why = if re.len() == b.len() && mismatch { ".le-tick-order" } else if re.len() == b.len() { ".same-length" } else { ".length" };
+                o.fails.push((format!("C12.ingress.accepted-noncanonical{why}"), format!("accepted {} re-encodes as {}", hex(&b), hex(&re))));
+            }
+            // what the reader returns is a constructor value (strictly ascending parents, id of the content)
+            if !e.causal_parents().windows(2).all(|w| w[0] < w[1]) {
+                o.fails.push(("C12.ingress.accepted.parents-not-ascending".into(), show_env(&e)));
+            }
+            let IngressPayload::LocalIntent { intent_kind, intent_bytes } = e.payload();
+            let rebuilt = IngressEnvelope::local_intent_with_causal_parents(e.target().clone(), *intent_kind, intent_bytes.clone(), e.causal_parents().to_vec());
+            if rebuilt != e || rebuilt.ingress_id() != e.ingress_id() {
+                o.fails.push(("C12.ingress.accepted.not-a-constructor-value".into(), show_env(&e)));
             }
         }
     }
     Ok(o)
 }
 
+fn target_len(e: &IngressEnvelope) -> usize {
+    match e.target() {
+        IngressTarget::DefaultWriter { .. } => 33,
+        IngressTarget::InboxAddress { inbox, .. } => 33 + 8 + inbox.0.len(),
+        IngressTarget::ExactHead { .. } => 65,
+    }
+}
+
+/// byte-level rearrangements of the parent records of a valid encoding
+fn parent_mutations(b: &[u8], toff: usize, np: usize, out: &mut Vec<String>) {
+    let a = toff + 8;
+    let recs: Vec<Vec<u8>> = (0..np).map(|i| b[a + i * PARENT_REC..a + (i + 1) * PARENT_REC].to_vec()).collect();
+    let emit = |recs: &[Vec<u8>], label: &str, out: &mut Vec<String>| {
+        let mut m = b[..toff].to_vec();
+        m.extend_from_slice(&(recs.len() as u64).to_le_bytes());
+        for r in recs {
+            m.extend_from_slice(r);
+        }
+        m.extend_from_slice(&b[a + np * PARENT_REC..]);
+        out.push(format!("{} {}", hex(&m), label));
+    };
+    for i in 0..np.saturating_sub(1) {
+        let mut r = recs.clone();
+        r.swap(i, i + 1);
+        emit(&r, "mut!swap-parents", out);
+    }
+    let mut by_bytes = recs.clone();
+    by_bytes.sort();
+    if by_bytes != recs {
+        emit(&by_bytes, "mut!parents-in-byte-order", out);
+    }
+    if np >= 3 {
+        let mut r = recs.clone();
+        r.reverse();
+        emit(&r, "mut!reverse-parents", out);
+    }
+    for i in 0..np {
+        let mut r = recs.clone();
+        r.insert(i, recs[i].clone());
+        emit(&r, "mut!dup-parent", out);
+    }
+}
+
 fn gen_ing_dec(rng: &mut Rng, tier: Tier) -> Vec<String> {
     let n = if tier == Tier::Thorough { 3000 } else { 300 };
     let mut out = Vec::new();
+    // the LE corner: the writer's bytes must be accepted, every rearrangement of the records refused
+    let m = if tier == Tier::Thorough { 1000 } else { 120 };
+    for _ in 0..m {
+        let refs = gen_le_refs(rng, 0);
+        let term = term_with(rng, &refs);
+        let mut t = Toks::new(&term);
+        let Ok(c) = parse_ing(&mut t) else { continue };
+        let e = build(&c);
+        let b = e.to_retained_bytes_v2();
+        out.push(format!("{} valid-le", hex(&b)));
+        parent_mutations(&b, 8 + target_len(&e), e.causal_parents().len(), &mut out);
+    }
     for _ in 0..n {
         let term = gen_ing_term(rng, true);
         let mut t = Toks::new(&term);
@@ -601,11 +812,49 @@ fn gen_ing_dec(rng: &mut Rng, tier: Tier) -> Vec<String> {
         out.push(format!("{} valid", hex(&b)));
         let np = e.causal_parents().len();
         // offset of the parent count: magic 8 + target
-        let toff = 8 + match e.target() {
-            IngressTarget::DefaultWriter { .. } => 33,
-            IngressTarget::InboxAddress { inbox, .. } => 33 + 8 + inbox.0.len(),
-            IngressTarget::ExactHead { .. } => 65,
-        };
+        let toff = 8 + target_len(&e);
+        if np >= 2 && rng.chance(1, 3) {
+            parent_mutations(&b, toff, np, &mut out);
+        }
+        // legacy v1 material
+        if rng.chance(1, 4) {
+            let mut v = b.clone();
+            v[..8].copy_from_slice(b"EINGR001");
+            if np == 0 {
+                out.push(format!("{} valid-v1", hex(&v)));
+                let mut w = v.clone();
+                match rng.below(4) {
+                    0 => {
+                        w.push(0);
+                        out.push(format!("{} mut!v1-append", hex(&w)));
+                    }
+                    1 => {
+                        w.truncate(rng.below(w.len() as u64) as usize);
+                        out.push(format!("{} mut!v1-truncate", hex(&w)));
+                    }
+                    2 => {
+                        // one legacy parent (tag 1 + bare digest): ambiguous, always refused
+                        let mut rec = vec![1u8];
+                        rec.extend_from_slice(&small_id(rng.below(3)));
+                        w.splice(toff + 8..toff + 8, rec);
+                        w[toff..toff + 8].copy_from_slice(&1u64.to_le_bytes());
+                        out.push(format!("{} mut!v1-parent", hex(&w)));
+                    }
+                    _ => {
+                        let mut rec = vec![1u8];
+                        rec.extend_from_slice(&small_id(2));
+                        rec.push(1);
+                        rec.extend_from_slice(&small_id(1));
+                        w.splice(toff + 8..toff + 8, rec);
+                        w[toff..toff + 8].copy_from_slice(&2u64.to_le_bytes());
+                        out.push(format!("{} mut!v1-parents-unsorted", hex(&w)));
+                    }
+                }
+            } else {
+                // v2 parent records under the v1 magic: wrong record size, refused
+                out.push(format!("{} mut!v1-magic-on-v2-parents", hex(&v)));
+            }
+        }
         let mut m = b.clone();
         let label = match rng.below(9) {
             0 => {
@@ -622,17 +871,17 @@ fn gen_ing_dec(rng: &mut Rng, tier: Tier) -> Vec<String> {
                 "mut!target-tag"
             }
             3 if np >= 2 => {
-                // swap the first two parents (each 177 bytes)
+                // swap the first two parents
                 let a = toff + 8;
-                let (x, y) = (m[a..a + 177].to_vec(), m[a + 177..a + 354].to_vec());
-                m[a..a + 177].copy_from_slice(&y);
-                m[a + 177..a + 354].copy_from_slice(&x);
+                let (x, y) = (m[a..a + PARENT_REC].to_vec(), m[a + PARENT_REC..a + 2 * PARENT_REC].to_vec());
+                m[a..a + PARENT_REC].copy_from_slice(&y);
+                m[a + PARENT_REC..a + 2 * PARENT_REC].copy_from_slice(&x);
                 "mut!swap-parents"
             }
             4 if np >= 1 => {
                 // duplicate the first parent and bump the count
                 let a = toff + 8;
-                let x = m[a..a + 177].to_vec();
+                let x = m[a..a + PARENT_REC].to_vec();
                 m.splice(a..a, x);
                 m[toff..toff + 8].copy_from_slice(&((np + 1) as u64).to_le_bytes());
                 "mut!dup-parent"
